@@ -67,6 +67,37 @@ tx mint_v2(quantity: Int) {
     output { to: Sender, amount: source - Ada(2000000) - fees, }
     cardano::plutus_witness { version: 2, script: 0x5101010023259800a518a4d136564004ae69, }
 }
+tx pinned_and_by_address(quantity: Int) {
+    input gas { from: Sender, min_amount: Ada(quantity) + fees, }
+    input locked { ref: 0x2626262626262626262626262626262626262626262626262626262626262626#0, }
+    output { to: Receiver, amount: Ada(quantity), }
+    output { to: Sender, amount: gas + locked - Ada(quantity) - fees, }
+}
+tx pinned_first(quantity: Int) {
+    input locked { ref: 0x2626262626262626262626262626262626262626262626262626262626262626#0, }
+    input gas { from: Sender, min_amount: Ada(quantity) + fees, }
+    output { to: Receiver, amount: Ada(quantity), }
+    output { to: Sender, amount: gas + locked - Ada(quantity) - fees, }
+}
+tx two_queries_one_party(quantity: Int) {
+    input first { from: Sender, min_amount: Ada(quantity), }
+    input second { from: Sender, min_amount: Ada(quantity) + fees, }
+    output { to: Receiver, amount: Ada(quantity), }
+    output { to: Sender, amount: first + second - Ada(quantity) - fees, }
+}
+tx pinned_twice(quantity: Int) {
+    input one { ref: 0x2626262626262626262626262626262626262626262626262626262626262626#0, }
+    input two { ref: 0x2626262626262626262626262626262626262626262626262626262626262626#0, }
+    output { to: Sender, amount: one + two - fees, }
+}
+tx collateral_and_reference_overlap(quantity: Int) {
+    input source { from: Sender, min_amount: Ada(quantity) + fees, }
+    collateral { from: Sender, min_amount: fees, }
+    reference dep { ref: 0x2626262626262626262626262626262626262626262626262626262626262626#0, }
+    reference again { ref: 0x2626262626262626262626262626262626262626262626262626262626262626#1, }
+    output { to: Receiver, amount: Ada(quantity), }
+    output { to: Sender, amount: source - Ada(quantity) - fees, }
+}
 tx with_mint(quantity: Int) {
     input source { from: Sender, min_amount: Ada(2000000) + fees, }
     mint { amount: AnyAsset(0x6b9c456aa650cb808a9ab54326e039d5235ed69f069c9664a8fe5b69, "ABC", quantity), redeemer: (), }
@@ -157,6 +188,43 @@ fn main() {
                 match again {
                     Ok(y) => if y.payload != x.payload { witness("cardano_ops/Compiler::compile#reproducible", "compile", input.clone(), "payloads differ".into(), "byte-identical payloads"); },
                     Err(_) => witness("cardano_ops/Compiler::compile#reproducible", "compile", input.clone(), "second run failed".into(), "byte-identical payloads"),
+                }
+            }
+        }
+    }
+    // ---- set-like fields hold no entry twice, also when the queries of several blocks overlap (same party, a UTxO pinned
+    // by reference that an address query matches as well, the same reference written twice): either the blocks get
+    // distinct UTxOs or resolution fails.  BOUND: 5 templates x stores of 1, 2 and 3 UTxOs of the sender.
+    for name in ["pinned_and_by_address", "pinned_first", "two_queries_one_party", "pinned_twice", "collateral_and_reference_overlap"] {
+        for n_utxos in 1..=3u32 {
+            cases += 1;
+            let input = format!("tx={name} store={n_utxos} UTxO(s) of the sender (50000 ADA each, outputs #0..#{} of one transaction)", n_utxos - 1);
+            let tx = lower(SRC, name);
+            let args: BTreeMap<String, ArgValue> = BTreeMap::from([
+                ("quantity".to_string(), ArgValue::Int(3_000_000)),
+                ("sender".to_string(), ArgValue::Address(addr_bytes(SENDER))),
+                ("receiver".to_string(), ArgValue::Address(addr_bytes(RECEIVER))),
+            ]);
+            let store = FixedStore((0..n_utxos).map(|i| lovelace_utxo(SENDER, 50_000_000_000, i)).collect());
+            let mut c = compiler(44, 155381, None);
+            vf_pipeline::begin_case(format!("overlapping queries: {input}"));
+            let r = pollster::block_on(tx3_resolver::resolve_tx(AnyTir::V1Beta0(tx), &args, &mut c, &store, 10));
+            let x = match r { Ok(x) => x, Err(e) => { println!("VERIF-NOTE {input}: did not resolve: {}", e.to_string().chars().take(80).collect::<String>()); continue; } };
+            let dec: Result<primitives::Tx, _> = tx3_cardano::pallas::codec::minicbor::decode(&x.payload);
+            let Ok(dec) = dec else {
+                witness("cardano_ops/Compiler::compile#postcondition", "compile", input.clone(), "payload does not decode".into(), "payload is a Conway tx a standard decoder accepts");
+                continue;
+            };
+            let body = &dec.transaction_body;
+            let dup = |v: Vec<(Vec<u8>, u64)>| -> Option<(Vec<u8>, u64)> { let mut seen = std::collections::BTreeSet::new(); v.into_iter().find(|e| !seen.insert(e.clone())) };
+            let as_pairs = |it: &mut dyn Iterator<Item = &primitives::TransactionInput>| -> Vec<(Vec<u8>, u64)> { it.map(|i| (i.transaction_id.to_vec(), i.index)).collect() };
+            for (field, entries) in [
+                ("inputs", as_pairs(&mut body.inputs.iter())),
+                ("reference_inputs", as_pairs(&mut body.reference_inputs.iter().flat_map(|s| s.iter()))),
+                ("collateral", as_pairs(&mut body.collateral.iter().flat_map(|s| s.iter()))),
+            ] {
+                if let Some((t, i)) = dup(entries.clone()) {
+                    witness("c10_pipeline/resolve_tx#no-duplicates", "compile_tx_body", format!("{input} class=one-utxo-listed-twice"), format!("{field} lists {}#{i} twice ({} entries)", hex::encode(&t[..4]), entries.len()), "a set: every UTxO at most once (or resolution fails)");
                 }
             }
         }
